@@ -41,6 +41,10 @@ func poolOracle(sc PoolScenario, r *PoolResult) (fs []Finding) {
 	add := func(i int, clause, what string) {
 		fs = append(fs, Finding{Sig: fmt.Sprintf("%s %s op=%s", sc.Harness, clause, opTag(sc.Callers[i])), What: fmt.Sprintf("caller %d (%s): %s", i, sc.Callers[i], what), Clause: clause})
 	}
+	if r.StaleBatch != "" {
+		fs = append(fs, Finding{Sig: sc.Harness + " stale-batch-written-to-new-connection", What: r.StaleBatch, Clause: "stale-batch"})
+		return
+	}
 	if r.Diverged != "" {
 		// The pool iterates over Go maps on its retry path; their order cannot be controlled, so a
 		// prefix occasionally meets a different enabled set. That is the harness's limit, not a
